@@ -118,6 +118,7 @@ func checkC18(p *Prog, r *Report) {
 	c18CallSite(p, r)
 	c18Ranges(p, r)
 	c18IndexTests(p, r)
+	c18CropCode(p, r)
 }
 
 // ---------------------------------------------------------------- R1 tables
